@@ -504,7 +504,7 @@ def check_dhtv_copy(run, A):
     g = A.graphs.get(fn)
     feats = [e for e in g.events if e.kind == 'store' and not _root_is(e.term.args[0], is_identity_columns)]
     if not feats:
-        raise AnalysisError('DHTV: feature update vanished')
+        return      # nothing is reordered in place (the paired-update rule reports the missing feature update)
     root = _chain_root(feats[0].term.args[0])
     alts = list(unwrap_gamma(root))
     ok = bool(alts) and all(is_call_to(x, 'method:copy', 'numpy.copy') or call_parts(x)[0] == P + '_parameterized_vector_norm' or
